@@ -375,6 +375,9 @@ class Translator:
             n = 2
             while f'{cn}_{n}' in used: n += 1
             cn = f'{cn}_{n}'
+        for pat, rep in self.cfg.get('fn_rename', []):
+            cn2 = re.sub(pat, rep, cn)
+            if cn2 != cn and cn2 not in used: cn = cn2; break
         self.funcnames[i] = cn
         if getattr(self, '_pending_sig', None): self.funcnames[self._pending_sig] = cn; self._pending_sig = None
         return cn
@@ -482,6 +485,8 @@ class Translator:
             sub = n['inner'][0]; src = self.ctype(self.qt(self.skip(sub))); dst = self.ctype(self.qt(n))
             if src.cls == 'ptr' and dst.cls == 'ptr' and src.elem.cls == 'record' and dst.elem.cls == 'record':
                 return f'BASE_TO_DERIVED({dst.elem.c}, base_{src.elem.c}, {self.E(sub, cx)})'
+            if src.cls == 'record' and dst.cls == 'record':      # reference to base -> reference to derived
+                return f'(*BASE_TO_DERIVED({dst.c}, base_{src.c}, {self.addr_of(sub, cx)}))'
         raise Unsupported(f'static_cast {ck} in {cx.cname}')
     E_CStyleCastExpr = E_CXXStaticCastExpr
 
@@ -559,14 +564,26 @@ class Translator:
         found by the owner's name, which the enumerator's type spells out"""
         m = re.match(r'^(.*)::\((unnamed|anonymous) enum at ', strip_ns(r.get('type', {}).get('qualType', '')))
         if not m: return None
-        owner = m.group(1).split('::')[-1] if '<' not in m.group(1) else m.group(1)[m.group(1).rfind('::', 0, m.group(1).index('<')) + 2:]
+        g1 = m.group(1)
+        if '<' not in g1: owner = g1.split('::')[-1]
+        else:
+            cut = g1.rfind('::', 0, g1.index('<'))
+            owner = g1[cut + 2:] if cut >= 0 else g1
         if not hasattr(self, '_enum_idx'):
             self._enum_idx = {}
             def walk(n, owner):
                 if not isinstance(n, dict): return
                 k = n.get('kind')
                 if k == 'ClassTemplateSpecializationDecl':
-                    targs = [strip_ns(a.get('type', {}).get('qualType', '')) for a in n.get('inner', []) if a.get('kind') == 'TemplateArgument']
+                    targs = []
+                    def ta(a):
+                        inner = [x for x in a.get('inner', []) if x.get('kind') == 'TemplateArgument']
+                        if inner and not a.get('type') and 'value' not in a:
+                            for x in inner: ta(x)          # a parameter pack: its elements
+                        else:
+                            targs.append(strip_ns(a.get('type', {}).get('qualType', '')) or (str(a['value']) if 'value' in a else ''))
+                    for a in n.get('inner', []):
+                        if a.get('kind') == 'TemplateArgument': ta(a)
                     owner = n.get('name', '') + '<' + ', '.join(targs) + '>'
                 elif k == 'CXXRecordDecl' and n.get('name') and n.get('completeDefinition'):
                     owner = n['name']
@@ -576,7 +593,16 @@ class Translator:
                         if v is not None: self._enum_idx.setdefault((owner, n.get('name')), v)
                 for c in n.get('inner', []): walk(c, owner)
             for d in self.docs: walk(d, None)
-        return self._enum_idx.get((owner, r.get('name')))
+        v = self._enum_idx.get((owner, r.get('name')))
+        if v is None and '<' in owner:
+            # template-template arguments carry no type in the dump: compare without them
+            base = owner[:owner.index('<')]
+            want = [x for x in split_top(owner[owner.index('<') + 1:owner.rindex('>')])]
+            for (o, nm), val in self._enum_idx.items():
+                if nm != r.get('name') or not o.startswith(base + '<'): continue
+                got = [x for x in split_top(o[o.index('<') + 1:o.rindex('>')])]
+                if len(got) >= len(want) and all(g == w or g == '' for g, w in zip(got, want)) and all(g == 'void' for g in got[len(want):]): return val
+        return v
 
     def E_DeclRefExpr(self, n, cx):
         r = n['referencedDecl']; rk = r['kind']
@@ -630,6 +656,12 @@ class Translator:
         op = n['opcode']
         if op == '&':
             s0 = self.skip(n['inner'][0])
+            if s0.get('kind') == 'DeclRefExpr' and s0['referencedDecl'].get('kind') == 'CXXMethodDecl':
+                # address of a static member function (template instantiation) of this unit: a tag naming the C function
+                d = self.byid.get(s0['referencedDecl']['id'])
+                if d is not None and self.has_body(d):
+                    self.enqueue(d)
+                    return f'FN_PTR({self.func_cname(d)})'
             if s0.get('kind') == 'DeclRefExpr' and s0['referencedDecl'].get('kind') == 'FunctionDecl':
                 # address of a function template instantiation used as a type tag (commonDtor<T>)
                 ty = s0['referencedDecl'].get('type', {}).get('qualType', '')
@@ -842,7 +874,7 @@ class Translator:
                 if d is not None:
                     self.enqueue(d); return f'{self.func_cname(d)}({", ".join([optr()] + self.ghost_args())})'
             if d is None or not self.has_body(d):
-                d2 = self.resolve_method(tcls, name, len(args), self.qt(obj))
+                d2 = self.resolve_method(tcls, name, len(args), self.qt(obj), self.qt(n))
                 if d2 is not None: d = d2
             if d is None:
                 return self.opaque_call(tcls, name, optr(), args, n, cx)
@@ -917,7 +949,7 @@ class Translator:
             return optr()
         raise Unsupported(f'member call {name} on {tcls} ({tcls.raw}) in {cx.cname}')
 
-    def resolve_method(self, rec, name, nargs, objq):
+    def resolve_method(self, rec, name, nargs, objq, retq=None):
         """find a method definition of a registered record by name / arity / constness (references across AST dumps)"""
         q = None
         for qq, c in self.cnames.items():
@@ -932,6 +964,16 @@ class Translator:
             want_const = ' const' in objq or objq.strip().startswith('const ')
             cc = [d for d in cands if d['type']['qualType'].rstrip().endswith('const') == want_const]
             if cc: cands = cc
+        if len(cands) > 1 and retq:
+            # several instantiations of a member template (get<U>): the one whose return type is the call's type
+            def rc(d):
+                try: return self.ret_ctype(d).c
+                except Unsupported: return None
+            try: want = self.ctype(retq).c
+            except Unsupported: want = None
+            cc = [d for d in cands if want is not None and rc(d) == want]
+            if cc: cands = cc
+            elif want is not None: return None
         return cands[0] if cands else None
 
     def opaque_call(self, rec, name, optr, args, n, cx):
@@ -955,8 +997,12 @@ class Translator:
                 a.append(self.addr_of(x, cx)); ps.append(f'{t.c} *a{i}')
             if t.cls == 'lambda': cn += '__' + t.c       # a lambda argument is part of the stub's name (its type is part of the signature)
         rt = self.ctype(self.qt(n))
+        proto = lambda name: f'{rt.decl("").strip()} {name}({", ".join(ps + self.ghost_decls())})'
+        if cn in self.externs and self.externs[cn] != proto(cn):
+            # an overload of an environment function with other argument types: its own stub
+            cn = cn + '__' + '_'.join(re.sub(r'\W+', '', p.split()[0]) for p in ps[1:])
         if cn not in self.externs:
-            self.externs[cn] = f'{rt.decl("").strip()} {cn}({", ".join(ps + self.ghost_decls())})'
+            self.externs[cn] = proto(cn)
         return f'{cn}({", ".join(a + self.ghost_args())})'
 
     def call_functor(self, ft, optr, args, n, cx):
@@ -1237,6 +1283,20 @@ class Translator:
                 else:
                     parts.append(f'.a{i} = {self.E(x, cx)}')
             return f'({t.c}){{{", ".join(parts)}}}'
+        if t.cls == 'record' and t.c not in self.cfg.get('value_records', []) and t.c not in self.cfg.get('opaque_records', []):
+            # temporary of a record of this unit: storage in the enclosing block, its extracted constructor runs on it
+            try: c = self.find_ctor(t, n)
+            except Unsupported: c = None
+            if c is not None:
+                self.enqueue(c)
+                tmp = cx.tmp('tmp')
+                a = [f'&{tmp}'] + self.pass_args(self.params_of(c), args, cx) + self.ghost_args()
+                cx.pre.append(f'{t.c} {tmp};')
+                cx.pre.append(f'{self.func_cname(c)}({", ".join(a)});')
+                dt = self.find_dtor(t)
+                if dt is not None:
+                    self.enqueue(dt); cx.scopes[-1].append(f'{self.func_cname(dt)}({", ".join([f"&{tmp}"] + self.ghost_args())});')
+                return tmp
         raise Unsupported(f'construction of {t} with {len(args)} args as an expression in {cx.cname}')
 
     def same_record(self, arg, t):
@@ -1824,6 +1884,7 @@ class Translator:
                 elif bt.cls == 'record':
                     ctor = self.find_ctor(bt, ce); self.enqueue(ctor)
                     a = [f'&self->base_{bt.c}'] + self.pass_args(self.params_of(ctor), ce.get('inner', []), cx) + self.ghost_args()
+                    out.extend(cx.pre); cx.pre = []
                     out.append(f'{self.func_cname(ctor)}({", ".join(a)});')
                 elif bt.cls == 'wp':
                     out.append(f'self->base = {self.E(ci["inner"][0], cx)};')
